@@ -147,12 +147,36 @@ def bind(chk: Check, tier: str, seed: int):
     chk.assumptions += ["the Yacht Devices and Actisense encoders' output is given the timestamp (and direction) token the "
                         "receive format prepends before it is handed to the decoder",
                         "text tokens are read as hexadecimal numbers by the harness (projection); everything else is judged by TLC"]
-    # receive-path re-framing (whole and byte by byte) through the real clients
-    try:
-        from .. import vloop
-    except ImportError:
-        return
-    vloop.c06_reframing(chk, picked, tier, rng)
+    # receive-path re-framing through the real clients: the concatenation of the encoder's packets must be split
+    # back into the same packets whatever the read boundaries (whole, byte by byte, every single cut position)
+    from .. import clientrun as cr
+    from .c12 import judge
+    from nmea2000.encoder import NMEA2000Encoder
+    sel = [x for x in picked if not x[0]["fast"]][:3] + [x for x in picked if x[0]["fast"] and len(x[0]["payload"]) > 8][:2] \
+        + [x for x in picked if len(x[0]["payload"]) < 8][:2]
+    frecs, fmeta = [], []
+    for kind in ("ebyte", "yd", "waveshare"):
+        enc = NMEA2000Encoder()
+        packets = []
+        for m, d, msg in sel:
+            try:
+                pk = {"ebyte": enc.encode_ebyte, "yd": enc.encode_yacht_devices, "waveshare": enc.encode_usb}[kind](msg)
+            except Exception:              # noqa: BLE001
+                continue
+            for p in pk:
+                packets.append(((b"00:00:00.000 R " + p) if kind == "yd" else p, "valid"))
+        stream = b"".join(p for p, _ in packets)
+        step = 1 if tier == "thorough" else 2
+        for cuts in [[], list(range(1, len(stream)))] + [[c] for c in range(1, len(stream), step)]:
+            if tier == "selftest" and len(cuts) == 1 and cuts[0] % 5:
+                continue
+            rec, _ = cr.receive_session(kind, packets, cr.cut(stream, cuts), sample_after=False)
+            # a packet that does not contain the start marker inside is canonical for the serial discipline
+            rec["canonical"] = kind != "waveshare" or all(p.find(b"\xaa\x55", 1) == -1 for p, _ in packets)
+            frecs.append(rec)
+            fmeta.append((kind, "ok", "whole" if not cuts else "bytewise" if len(cuts) > 1 else "1-cut", cuts[:4]))
+    judge(chk, wd, frecs, fmeta, tag="c06-reframing")
+    chk.add(reframing_sessions=len(frecs))
 
 
 def run(tier: str, seed: int) -> int:
